@@ -65,9 +65,14 @@ SIMPLE = {"filter:ewise", "mutate:ewise", "select", "rename", "arrange"}
 
 
 def alphabet(st, hist):
+    # a window column that was hidden meanwhile, used again through the reference taken
+    # from the intermediate table where it was visible (disabled by the model when that
+    # table has no visible column w)
+    reuse = [["mutate", [["v3", ["add", ["col", "at", i, "w"], lit(0)]]]] for i in range(1, len(hist) - 1)
+             if hist[i][0] == "mutate" and hist[i][1][0][0] == "w"]
     if len(hist) > 1 and hist[-1][0] == "alias":
-        return ALPHABET
-    return [ALIAS] + ALPHABET
+        return ALPHABET + reuse
+    return [ALIAS] + ALPHABET + reuse
 
 
 def size(hist):
@@ -180,7 +185,7 @@ def describe(tier):
                        "accepted => SQLite frame == polars frame == reference model",
                        "refused verb is accepted (and correct) with alias() directly before it",
                        "simple-class histories are never refused"],
-        "references": "all columns referenced as C.<name> so that a history stays well-formed under every alias mask",
+        "references": "all columns referenced as C.<name> so that a history stays well-formed under every alias mask; plus mutate(v3=<table after the window mutate>.w + 0) to reuse a window column hidden meanwhile",
         "regime": "tree",
         "assumptions": ["engines trusted", "reference model (also used for order-totality)"],
     }
